@@ -84,19 +84,32 @@ def quirkNested : Tmpl :=
             (.text ['}']))))))
         (.call (.call 2 []) [] (.text ['T'])))
 
-/-- defs of a `<%call>` under a control line and in a nested `<%call>` (all of them are written into the outer `ccall`):
-    `<%def name="d1()">[${caller.d5('a')}|${caller.d7()}|${caller.body()}]</%def>` `<%def name="d2()">(${caller.body()})</%def>`
+/-- defs of a `<%call>` under a control line (exported by that call) and in a nested `<%call>` (exported by the nested
+    call only, since /repo 4a9e6c6):
+    `<%def name="d1()">[${caller.d5('a')}|${caller.body()}]</%def>` `<%def name="d2()">(${caller.d7()}:${caller.body()})</%def>`
     `<%call expr="d1()">` `% if 'c':` `<%def name="d5(v5)" filter="flt2">n${v5}</%def>X` `% endif`
     `<%call expr="d2()"><%def name="d7()">s</%def>I${d7()}</%call>B${d5('b')}</%call>`
-    (real mako renders `[2(na)|s|X(Is)B2(nb)]`) -/
+    (real mako renders `[2(na)|X(s:Is)B2(nb)]`) -/
 def sampleDeep : Tmpl :=
   .seq (.def_ 1 [] noFlags (.seq (.text ['[']) (.seq (.expr (.callerCall 5 [.lit ['a']]) []) (.seq (.text ['|'])
-          (.seq (.expr (.callerCall 7 []) []) (.seq (.text ['|']) (.seq (.expr (.callerCall 0 []) []) (.text [']']))))))))
-  (.seq (.def_ 2 [] noFlags (.seq (.text ['(']) (.seq (.expr (.callerCall 0 []) []) (.text [')']))))
+          (.seq (.expr (.callerCall 0 []) []) (.text [']']))))))
+  (.seq (.def_ 2 [] noFlags (.seq (.text ['(']) (.seq (.expr (.callerCall 7 []) []) (.seq (.text [':'])
+          (.seq (.expr (.callerCall 0 []) []) (.text [')']))))))
     (.call (.call 1 []) []
       (.seq (.ite (.lit ['c']) (.seq (.def_ 5 [5] flFilt2 (.seq (.text ['n']) (.expr (.var 5) []))) (.text ['X'])) .nil)
       (.seq (.call (.call 2 []) [] (.seq (.def_ 7 [] noFlags (.text ['s'])) (.seq (.text ['I']) (.expr (.call 7 []) []))))
       (.seq (.text ['B']) (.expr (.call 5 [.lit ['b']]) []))))))
+
+/-- the witness of the repaired defect F-C05-5: the *outer* callee asks for a def of the nested `<%call>`:
+    `<%def name="d1()">[${caller.d7()}|${caller.body()}]</%def>` `<%def name="d2()">(${caller.body()})</%def>`
+    `<%call expr="d1()"><%call expr="d2()"><%def name="d7()">inner</%def>x</%call></%call>` – before /repo 4a9e6c6
+    this rendered `[inner|(x)]`; now `caller` has no `d7` (exception 2 after `[`) -/
+def quirkOuterExport : Tmpl :=
+  .seq (.def_ 1 [] noFlags (.seq (.text ['[']) (.seq (.expr (.callerCall 7 []) []) (.seq (.text ['|'])
+          (.seq (.expr (.callerCall 0 []) []) (.text [']']))))))
+  (.seq (.def_ 2 [] noFlags (.seq (.text ['(']) (.seq (.expr (.callerCall 0 []) []) (.text [')']))))
+    (.call (.call 1 []) []
+      (.call (.call 2 []) [] (.seq (.def_ 7 [] noFlags (.text ['i', 'n', 'n', 'e', 'r'])) (.text ['x'])))))
 
 /-- blocks and an include (block names start at `blockBase`):
     `<%def name="d1(v1)">[${v1}]</%def>a<%block name="b1" filter="flt2">x${d1('q')}</%block>`
@@ -116,8 +129,8 @@ def sampleBlocks : Tmpl :=
         (.expr (.call 2 []) []))))))
 
 /-- the included template: `I<%block name="b1">k</%block><%block buffered="True">z</%block>J` – its named block is a
-    callable of *its* module (same name as the includer's); the content of the buffered block is returned to a
-    call site that drops it (`visitBlockTag` writes a bare call) -/
+    callable of *its* module (same name as the includer's); the content of the buffered block is returned to the
+    place of the block, which writes it (`__M_writer(block() or '')`, /repo 248d875) -/
 def sampleIncluded : Tmpl :=
   .seq (.text ['I']) (.seq (.block 2000001 false noFlags (.text ['k']))
     (.seq (.block 2000004 true { buffered := true, filters := [], cached := false, deco := false } (.text ['z'])) (.text ['J'])))
